@@ -119,6 +119,11 @@ if os.environ.get("VERIF_NO_VSYNC") != "1":
             new = pat.sub(r"vsync.\1", src)
             if os.environ.get("VERIF_NO_PREEMPT") != "1":
                 def addsp(mm):
+                    # only the entries of the exported API (what taskctl calls): the library's own
+                    # internals - e.g. erase(), which runs inside Stop's critical section - stay atomic
+                    # (a race between Stop and the spinner's loop is the library's, see DESIGN 11.14)
+                    if not mm.group(3)[:1].isupper():
+                        return mm.group(0)
                     return mm.group(0) + '\tvsync.Preempt("spinner.%s")\n' % mm.group(3)
                 new = fn_pat.sub(addsp, new)
             new += "\n// keeps both imports in use after the rewrite\nvar _ sync.Locker = (*vsync.Mutex)(nil)\n"
